@@ -771,6 +771,68 @@ def getCellText (rb : RB) (line col : Int) (len : Nat) : Int × List UInt8 :=
 /-- `tickit_renderbuffer_has_cursorpos` / `get_cursorpos` (`none`: the outputs are left alone). -/
 def getCursor (rb : RB) : Option (Int × Int) := if rb.vcSet then some (rb.vcLine, rb.vcCol) else none
 
+/-! ### Programs -/
+
+/-- One public state-changing operation of the render buffer (the alphabet of "programs" in C03). -/
+inductive Op
+  | textAt (line col : Int) (s : List UInt8)
+  | text (s : List UInt8)
+  | eraseAt (line col cols : Int)
+  | erase (cols : Int)
+  | eraseTo (col : Int)
+  | skipAt (line col cols : Int)
+  | skip (cols : Int)
+  | skipTo (col : Int)
+  | charAt (line col : Int) (cp : Int)
+  | char (cp : Int)
+  | hlineAt (line startcol endcol : Int) (style caps : Nat)
+  | vlineAt (startline endline col : Int) (style caps : Nat)
+  | clear
+  | eraserect (r : Rect)
+  | skiprect (r : Rect)
+  | goto (line col : Int)
+  | ungoto
+  | translate (downward rightward : Int)
+  | clip (r : Rect)
+  | mask (r : Rect)
+  | setpen (pen : Option Pen)
+  | save
+  | savepen
+  | restore
+  | reset
+deriving DecidableEq, Repr
+
+/-- The effect of one operation. -/
+def step (rb : RB) : Op → RB
+  | .textAt l c s => textAt rb l c s
+  | .text s => text rb s
+  | .eraseAt l c n => eraseAt rb l c n
+  | .erase n => erase rb n
+  | .eraseTo c => eraseTo rb c
+  | .skipAt l c n => skipAt rb l c n
+  | .skip n => skip rb n
+  | .skipTo c => skipTo rb c
+  | .charAt l c cp => charAt rb l c cp
+  | .char cp => char rb cp
+  | .hlineAt l c1 c2 st caps => hlineAt rb l c1 c2 st caps
+  | .vlineAt l1 l2 c st caps => vlineAt rb l1 l2 c st caps
+  | .clear => clear rb
+  | .eraserect r => eraserect rb r
+  | .skiprect r => skiprect rb r
+  | .goto l c => goto rb l c
+  | .ungoto => ungoto rb
+  | .translate d r => translate rb d r
+  | .clip r => clip rb r
+  | .mask r => mask rb r
+  | .setpen p => setpen rb p
+  | .save => save rb
+  | .savepen => savepen rb
+  | .restore => restore rb
+  | .reset => reset rb
+
+/-- A program: operations in order. -/
+def run (rb : RB) (prog : List Op) : RB := prog.foldl step rb
+
 /-! ### Tabulation (execution speed only) -/
 
 /-- Re-tabulate the grid into arrays: the identity on `[0,lines) × [0,cols)`; the cells outside (never
